@@ -170,7 +170,7 @@ def run(ctx):
                       construct="finish")
 
     from . import c09
-    with ctx.rule("C10.REDISCOVER", "match re-discovery is confined to the reported range (shared with C09.REDISCOVER)", floor=7,
+    with ctx.rule("C10.REDISCOVER", "match re-discovery is confined to the reported range (shared with C09.REDISCOVER)", floor=8,
                   kind="GUARD/FLOW") as r:
         c09.rediscover_rule(ctx, r)
     with ctx.rule("C10.MLPRED", "printers and searcher decide 'multi-line' by the same matcher-aware predicate", floor=5, kind="PARITY") as r:
